@@ -913,6 +913,7 @@ type PendingDelivery struct {
 	Conn    int
 	Pattern string
 	Subject string
+	Reply   string // reply subject of the message (a request when non-empty)
 	sub     *Subscription
 }
 
@@ -931,7 +932,7 @@ func (b *Bus) PendingDeliveries() []PendingDelivery {
 		s.mu.Lock()
 		if !s.ended && !s.busy && len(s.pending) > 0 {
 			m := s.pending[0]
-			out = append(out, PendingDelivery{s.gid, m.seq, s.conn.id, s.Subject, m.Subject, s})
+			out = append(out, PendingDelivery{s.gid, m.seq, s.conn.id, s.Subject, m.Subject, m.Reply, s})
 		}
 		s.mu.Unlock()
 	}
